@@ -138,6 +138,10 @@ def build_tu(tu):
     key = sha(tree_hash(), common_hash(srcs), src_bytes, flagsig)[:20]
     out = os.path.join(CACHE, "%s.%s" % (tu["name"], key))
     if os.path.exists(out):
+        try:
+            os.utime(out, None)
+        except OSError:
+            pass
         return out, 0.0, True
     tmp = out + ".tmp%d" % os.getpid()
     dep = tmp + ".d"
@@ -162,14 +166,18 @@ def build_tu(tu):
     if bad:
         os.remove(tmp)
         raise HarnessFailure("GIL headers resolved outside %s: %s" % (REPO, bad[:3]))
-    # keep one generation per (name): drop stale binaries of the same TU
-    for f in os.listdir(CACHE):
-        if f.startswith(tu["name"] + ".") and ".tmp" not in f and os.path.join(CACHE, f) != out:
+    # keep the two most recent generations per TU (the tree of /repo and one scratch tree under validation):
+    # older binaries of the same TU are dropped
+    os.replace(tmp, out)
+    gens = [os.path.join(CACHE, f) for f in os.listdir(CACHE)
+            if f.startswith(tu["name"] + ".") and ".tmp" not in f]
+    gens.sort(key=lambda q: os.path.getmtime(q) if os.path.exists(q) else 0, reverse=True)
+    for q in gens[2:]:
+        if q != out:
             try:
-                os.remove(os.path.join(CACHE, f))
+                os.remove(q)
             except OSError:
                 pass
-    os.replace(tmp, out)
     return out, dt, False
 
 
